@@ -16,7 +16,7 @@ def prog(kinds, guards=None):
         if k == 'W':
             p |= 1 << (2 + j)
         if guards[j] == 'g':
-            p |= 1 << (4 + j)
+            p |= 1 << (5 + j)
     return p
 
 
@@ -34,6 +34,8 @@ class ResQuery(Query):
         self.native_repo_srcs = self.repo_srcs
         self.native_shim = True
         self.native_defines = ['VF_PRESTART=%d' % nthr]
+        self.mem_weight = 4 if nthr >= 3 else 2
+        self.extra_cbmc = ['--sat-solver', 'cadical', '--slice-formula']   # measured: 275 s vs 329 s (MiniSat, no slicing) on live3_R_R_W
 
 
 def build_with_repo(ck, q):
